@@ -296,6 +296,34 @@ pub fn queries(quick: bool) -> Vec<PolyQ> {
       }
     }
   }
+  // polar neighbourhood, exact mode: polygons 0.1..0.4 rad from a pole, many orientations (the
+  // special points of the exact mode are small-circle / great-circle intersections whose two roots
+  // sit on either side of the apex of the edge's great circle: that apex is inside or next to an
+  // edge only for edges passing close to a pole)
+  for &south in &[false, true] {
+    for &clat in if quick { &[1.25f64, 1.4][..] } else { &[1.15f64, 1.25, 1.33, 1.4, 1.46][..] } {
+      for kl in 0..(if quick { 5 } else { 12 }) {
+        let lon = 0.31 + kl as f64 * (TWO_PI / if quick { 5.0 } else { 12.0 });
+        let lat = if south { -clat } else { clat };
+        for &r in &[0.09, 0.15, 0.25] {
+          if clat + r > HALF_PI - 0.02 {
+            continue;
+          }
+          for &n in &[3usize, 4, 5] {
+            for kr in 0..(if quick { 4 } else { 8 }) {
+              let rot = 0.11 + kr as f64 * (TWO_PI / n as f64) / if quick { 4.0 } else { 8.0 };
+              for &rev in &[false, true] {
+                let vertices = make_polygon(lon, lat, n, r, 1.0, rot, rev);
+                for &d in if quick { &[5u8][..] } else { &[5u8, 7][..] } {
+                  v.push(PolyQ { depth: d, exact: true, vertices: vertices.clone(), lon, lat, radius: r, convex: true });
+                }
+              }
+            }
+          }
+        }
+      }
+    }
+  }
   // deep-large: polygons lying strictly inside ONE cell of their start depth (centred on the centre
   // of a depth-7 cell, a third of that cell across), covered 16 and 17 levels deeper (outputs of
   // ~1e5 cells): only the list of vertex cells can lead the recursion to them
@@ -347,12 +375,7 @@ pub fn queries(quick: bool) -> Vec<PolyQ> {
 }
 
 pub fn run(ctx: &Ctx) -> i32 {
-  let mut qs = queries(ctx.quick());
-  if ctx.config == "relassert" {
-    // with debug assertions on, the special-point finder of the exact mode trips its own
-    // assertions on valid polygons (DESIGN.md 11.1): this profile runs the approximate mode only
-    qs.retain(|q| !q.exact);
-  }
+  let qs = queries(ctx.quick());
   let _ = max_c2v(0);
   let chunk = 64;
   let njobs = (qs.len() + chunk - 1) / chunk;
